@@ -67,13 +67,34 @@ def r1(ctx):
         got[kw.get("errorCode")] = vals
     ctx.check("_Commando.WriteProperty:index-0-refused", got.get("writeAccessDenied") == (0,), where(m, wp), "array index 0 (the length) must be refused with writeAccessDenied (raised for %r)" % (got.get("writeAccessDenied"),))
     ctx.check("_Commando.WriteProperty:out-of-range-refused", got.get("invalidArrayIndex") == (-1, 17), where(m, wp), "indexes outside 1..16 must be refused with invalidArrayIndex (raised for %r)" % (got.get("invalidArrayIndex"),))
-    # default priority
-    d = [s for s in walk_shallow(wp) if isinstance(s, ast.Assign) and norm(s.targets[0]) == "priority" and prog.try_const(m, s.value) == 16]
-    ok = len(d) == 1 and ("priority is None", True) in atom_texts(facts_at(d[0])) and any(t == "property == presentValue" and p for t, p in atom_texts(facts_at(d[0])))
-    ctx.check("_Commando.WriteProperty:default-priority-16", ok, where(m, wp), "a present-value write without priority counts as priority 16")
-    red = [s for s in walk_shallow(wp) if isinstance(s, ast.Assign) and norm(s.targets[0]) == "arrayIndex" and norm(s.value) == "priority"]
-    ok = len(red) == 1 and any(t == "property == presentValue" and p for t, p in atom_texts(facts_at(red[0], check_kills=False))) and d and d[0].lineno < red[0].lineno
-    ctx.check("_Commando.WriteProperty:redirect-to-slot", ok, where(m, wp), "a present-value write is redirected to the priority-array slot of its priority")
+    # default priority and redirection: the values of `arrayIndex` and `property` at the end of the present-value arm,
+    # followed through the assignments on each of its paths, for a priority that is absent / 1 / 8 / 16
+    from .common import body_paths, path_value, consistent
+    arms = [s for s in walk_shallow(wp) if isinstance(s, ast.If) and norm(s.test) in ("property == presentValue", "presentValue == property")]
+    ok_default = ok_slot = len(arms) == 1
+    if ok_default:
+        for pr in (None, 1, 8, 16):
+            env = {"priority is None": pr is None, "priority is not None": pr is not None, "priorityArray": "<priority array>"}
+            if pr is not None:
+                env["priority"] = pr
+            n = 0
+            for p_ in body_paths(arms[0].body):
+                if p_.term == "raise" or not consistent(p_.conds()):
+                    continue
+                kind, val = path_value(p_, ev, env, "arrayIndex")
+                if kind == "infeasible":
+                    continue
+                n += 1
+                if pr is None:
+                    ok_default = ok_default and kind == "value" and val == 16
+                else:
+                    ok_slot = ok_slot and kind == "value" and val == pr
+                k2, v2 = path_value(p_, ev, env, "property")
+                ok_slot = ok_slot and k2 == "value" and v2 == "<priority array>"
+            if not n:
+                ok_default = ok_slot = False
+    ctx.check("_Commando.WriteProperty:default-priority-16", ok_default, where(m, wp), "a present-value write without priority counts as priority 16")
+    ctx.check("_Commando.WriteProperty:redirect-to-slot", ok_slot, where(m, wp), "a present-value write is redirected to the priority-array slot of its priority")
 
 
 @rule("C17.R2", "the present value is the lowest-numbered non-null slot 1..16, else the relinquish default", floor=3, engines="E1")
